@@ -94,7 +94,7 @@ func runC12Cmd(c c12Cmd) error {
 	}
 	out := filepath.Join(dir, "report")
 	var rerr error
-	if perr := vh.Try(func() { rerr = report([]string{in}, typ, out, every, buckets) }); perr != nil {
+	if perr := vh.Try(func() { rerr = runReport([]string{in}, typ, out, every, buckets) }); perr != nil {
 		return fmt.Errorf("report -type=%q -buckets=%q panics: %v", typ, buckets, perr)
 	}
 	if rerr != nil {
